@@ -111,9 +111,9 @@ META = {
         "technique": 'Lean 4 proof (fold lemmas over arbitrary record lists) + differential correspondence check',
     },
     "C12": {
-        "text": 'Lean 4 theorems: c12_prune_equiv_partial (for every journal that restores, the pruned journal restores with the same view up to crash counters and queue worker resources), c12_append, c12_wf; the full statement is kept visible and refuted on witnesses for exactly the two recorded findings F12/F25' + CORR,
+        "text": 'Lean 4 theorems about the prune of the code after fix 13acddd (prune2): c12_prune2_equiv_partial (for every journal that restores, the pruned journal restores with the same job entries INCLUDING crash counters, job tables equal as lists, queues, uid), c12_prune2_restore (same restored jobs and TaskSubmit batches with adjust maps), c12_append2, c12_wf2_append, c12_prune2_twice, c12_prune2_idem; the one component not preserved is queue worker resources (known finding F25, refuted on a witness); the statements about the code before the fix (F12) are kept with their witness and a regression theorem' + CORR,
         "design_ref": 'DESIGN.md 7/C12',
-        "note": 'trusted: as C10; partial: crash counts of tasks that ran on since-lost workers and queue worker_resources differ after prune (KNOWN_FINDINGS F12, F25); the lift from restorer state to restored Job/TaskSubmit values is not proved; tmp-file + rename is file-system behaviour',
+        "note": 'trusted: as C10; partial: queue worker_resources differ after prune (KNOWN_FINDINGS F25); F12 (crash counts) found by this check and fixed in 13acddd; the real journal thread around a prune request is exercised (op sprune); tmp-file + rename is file-system behaviour',
         "technique": 'Lean 4 proof (per-job/per-queue factorisation of the restorer fold) + differential correspondence check',
     },
     "C17": {
